@@ -392,13 +392,31 @@ func (dp *DataProcessor) startWindowProcessing() {
 					// Channel closed, exit
 					return
 				}
-				dp.processWindowBatch(batch)
+				dp.processWindowBatchSafe(batch)
 			case <-dp.stream.done:
 				// Stream stopped, exit
 				return
 			}
 		}
 	}()
+}
+
+// processWindowBatchSafe processes one window batch and recovers a panic raised
+// while doing so (a user function inside an aggregate, a HAVING expression, ...),
+// like processItem does for a single row. Without the per-batch recover the panic
+// reached the goroutine-level recover of the consumer loop, the loop ended and no
+// later window was ever reported. The partially filled aggregator is reset so the
+// next batch starts clean.
+func (dp *DataProcessor) processWindowBatchSafe(batch []types.Row) {
+	defer func() {
+		if r := recover(); r != nil {
+			dp.stream.log.Error("window batch panic recovered: %v", r)
+			if dp.stream.aggregator != nil {
+				dp.stream.aggregator.Reset()
+			}
+		}
+	}()
+	dp.processWindowBatch(batch)
 }
 
 // processWindowBatch processes window batch data
